@@ -236,7 +236,11 @@ func genHostilePlan(seed uint64, thorough bool) *Plan {
 				raw := garbageFrames[g.r.IntN(len(garbageFrames))]
 				if g.chance(4) {
 					// mutate a valid frame
-					f := EncodeCmd(bs(g.hostileCmd()...))
+					base := g.hostileCmd()
+					for affectsOthers(base) {
+						base = g.hostileCmd()
+					}
+					f := EncodeCmd(bs(base...))
 					pos := g.r.IntN(len(f))
 					switch g.r.IntN(4) {
 					case 0:
@@ -259,6 +263,15 @@ func genHostilePlan(seed uint64, thorough bool) *Plan {
 		}
 	}
 	return p
+}
+
+// affectsOthers: commands whose legitimate effect reaches other connections.
+func affectsOthers(c []string) bool {
+	switch strings.ToUpper(c[0]) {
+	case "FLUSHALL", "FLUSHDB", "CLIENT", "SELECT", "MULTI", "HELLO", "QUIT":
+		return true
+	}
+	return isBlockingCmd(c[0]) || touchesVictims(c)
 }
 
 func touchesVictims(c []string) bool {
